@@ -343,7 +343,13 @@ func (s *Sim) adminActions() []Action {
 			if _, has := n.Labels[lv.k]; has {
 				add("node.unlabel "+n.Name+" "+lv.k, func() { delete(n.Labels, lv.k); s.Store.ForceUpdate(n) })
 			} else {
-				add("node.label "+n.Name+" "+lv.k+"="+lv.vs[0], func() { n.Labels[lv.k] = lv.vs[0]; s.Store.ForceUpdate(n) })
+				add("node.label "+n.Name+" "+lv.k+"="+lv.vs[0], func() {
+					if n.Labels == nil {
+						n.Labels = map[string]string{}
+					}
+					n.Labels[lv.k] = lv.vs[0]
+					s.Store.ForceUpdate(n)
+				})
 			}
 		}
 		for _, tv := range taintVocab {
